@@ -59,6 +59,10 @@ UNIVERSES = {
     "U3adv": (["a", "a.a", "a.aa", "a.a_a", "a.ab"], "a", ["a", "aa", "a_a"]),
     "U4": (["p", "p.a", "p.b", "p.c", "p.d"], "p", ["a", "b", "c", "d"]),
     "U2deep": (["r", "r.s", "r.s.a", "r.s.b", "r.s.a.x", "r.t"], "r.s", ["a", "b"]),
+    # five and six components (the property's upper bound), a sub module of a component and a bystander; only used
+    # with a window of symbolic pairs over a seeded concrete relation
+    "U5": (["p", "p.a", "p.a.x", "p.b", "p.c", "p.d", "p.e", "p.z"], "p", ["a", "b", "c", "d", "e"]),
+    "U6": (["p", "p.a", "p.b", "p.b.y", "p.c", "p.d", "p.e", "p.f", "p.z"], "p", ["a", "b", "c", "d", "e", "f"]),
 }
 
 
@@ -146,6 +150,20 @@ def instances(tier: str) -> list[dict]:
             for so in (True, False):
                 out.append({"part": "e2e", "u": u, "arrows": [list(p) for p in rel], "should_only": so, "cap": CAPS[tier]})
             out.append({"part": "naming", "u": u, "arrows": [list(p) for p in rel], "should_only": True, "cap": CAPS[tier]})
+    # 5-6 components: seeded arrow relations; the import relation is concrete where the diagram is satisfied exactly
+    # (drawn arrows present, nothing else), except for a window of 12 symbolic pairs around the components
+    from vf.universes import random_window
+
+    for u in ("U5", "U6"):
+        nodes, base, comps = UNIVERSES[u]
+        for _ in range(8 if tier == "quick" else 60):
+            rel = tuple(p for p in [(a, b) for a in comps for b in comps if a != b] if rnd.random() < 0.25)
+            win, _bg = random_window(rnd, nodes, 12, density=0.0, focus=[f"{base}.{c}" for c in comps])
+            conform = [[f"{base}.{a}", f"{base}.{b}"] for a, b in rel]
+            noise = [list(p) for p in _bg]
+            for so in (True, False):
+                out.append({"part": "e2e", "u": u, "arrows": [list(p) for p in rel], "should_only": so, "cap": CAPS[tier], "window": [list(p) for p in win], "background": conform if rnd.random() < 0.7 else conform + noise})
+            out.append({"part": "naming", "u": u, "arrows": [list(p) for p in rel], "should_only": True, "cap": CAPS[tier], "window": [list(p) for p in win], "background": conform})
     for n in (2, 3, 4) if tier == "quick" else (2, 3, 4):
         for so in (True, False):
             out.append({"part": "rules", "n": n, "should_only": so})
@@ -157,7 +175,7 @@ def instances(tier: str) -> list[dict]:
 
 def label_of(i) -> str:
     if i["part"] in ("e2e", "naming"):
-        return f"{i['part']} {i['u']} arrows={i['arrows']} should_only={i['should_only']}"
+        return f"{i['part']} {i['u']} arrows={i['arrows']} should_only={i['should_only']}" + (f" window#{abs(hash(str(i['window']))) % 997}" if "window" in i else "")
     return " ".join(f"{k}={v}" for k, v in i.items())
 
 
@@ -230,7 +248,7 @@ def work(inst: dict) -> dict:
     label = label_of(inst)
     tagname = f"{abs(hash(label)) % 10**9}"
     p_rel = write_diagram(f"d{tagname}_rel.puml", diagram_text(comps, arrows, None))
-    arch = SymArch(nodes)
+    arch = SymArch(nodes, window=[tuple(p) for p in inst["window"]], background=[tuple(p) for p in inst["background"]]) if "window" in inst else SymArch(nodes)
     res = {"label": label, "errors": [], "violations": [], "replays": 0, "paths": 0, "forks": 0, "explore_s": 0.0, "functions": set(), "variables_total": len(arch.pairs)}
 
     def summarise(path, b, first=True):
@@ -453,7 +471,7 @@ def run(tier: str, only: str | None = None) -> int:
         items = [i for i in items if only in label_of(i)]
     rep.bounds = {
         "universes": {u: {"modules": UNIVERSES[u][0], "base": UNIVERSES[u][1], "components": UNIVERSES[u][2]} for u in sorted({i["u"] for i in items if "u" in i})},
-        "relations": "every arrow relation over 2-3 components; seeded sample over 4 components",
+        "relations": "every arrow relation over 2-3 components; seeded sample over 4 components; seeded arrow relations over 5 and 6 components with a window of 12 symbolic import pairs over the relation that satisfies the diagram exactly (optionally plus seeded noise)",
         "modes": "should-only and should; with_base_module vs names written in full",
         "generated_rules": "every arrow relation over 2-4 components (symbolic arrow bits)",
         "aggregation": "1-6 rule appliers with symbolic pass/fail",
